@@ -248,6 +248,33 @@ def rebind_workspace(rng):
     return ws
 
 
+def long_module_workspace(rng):
+    """a long module in which short names (`e`, `n`, `id`) occur thousands of times as parts of words - in comments, in
+    strings, inside longer identifiers - before the few places where they are names of their own"""
+    nm = rng.choice(["e", "n", "id", "a"])
+    filler = "".join(f"// note {i}: " + (f"{nm} " * rng.randrange(30, 50)) + f"the{nm}n sev{nm}n {nm}{nm}{nm}\n" for i in range(rng.choice([60, 80])))
+    strs = "pub fn words() {\n  \"" + (nm + " ") * 200 + "\"\n}\n\n"
+    idents = "".join(f"pub fn w{nm}{i}x{nm}() {{\n  {i}\n}}\n\n" for i in range(20))
+    tail = (f"pub fn settle({nm}: Int, other: Int) {{\n  let total = {nm} + other\n  case total {{\n    0 -> {nm}\n    _ -> {nm} * total\n  }}\n}}\n\n"
+            f"pub fn again({nm}) {{\n  [{nm}, {nm}]\n}}\n")
+    text = filler + strs + idents + tail
+    files = [("/w/p/src/m1.gleam", text), ("/w/p/src/m2.gleam", "import m1\n\npub fn use_it() {\n  m1.settle(1, 2)\n}\n"), ("/w/p/gleam.toml", 'name = "p"\n')]
+    ws = PlainWs(files)
+    base = text.index("pub fn settle")
+    def at(needle, k=0, nth=0, start=base):
+        i = start - 1
+        for _ in range(nth + 1):
+            i = text.index(needle, i + 1)
+        return (0, len(text[:i + k].encode("utf-8")))
+    b2 = text.index("pub fn again")
+    ws.groups = [
+        (nm, [at(f"settle({nm}", 7), at(f"= {nm} +", 2), at(f"0 -> {nm}", 5), at(f"_ -> {nm} *", 5)]),
+        (nm, [at(f"again({nm}", 6, 0, b2), at(f"[{nm},", 1, 0, b2), at(f", {nm}]", 2, 0, b2)]),
+        ("settle", [at("fn settle", 3), (1, len("import m1\n\npub fn use_it() {\n  m1.".encode()))]),
+    ]
+    return ws
+
+
 def lookalike_workspace(rng):
     """look-alike modules (a template instantiated twice): in two files a function sits at exactly the same byte range, one
     module names the library function qualified, the other imports it unqualified; a third declares a local of the same
@@ -338,6 +365,7 @@ def run_c06(res, tier, seed):
     wss += [deep_module_workspace(rrng) for _ in range(6 if tier == "quick" else 60)]
     wss += [lookalike_workspace(rrng) for _ in range(4 if tier == "quick" else 40)]
     wss += [rebind_workspace(rrng) for _ in range(3 if tier == "quick" else 30)]
+    wss += [long_module_workspace(rrng) for _ in range(2 if tier == "quick" else 12)]
     wss += [accessor_clash_workspace(rrng) for _ in range(3 if tier == "quick" else 30)]
     wss += [variant_label_workspace(rrng) for _ in range(6 if tier == "quick" else 60)]
     run_expected_groups(res, "C06", wss)
